@@ -1,32 +1,45 @@
 """C16 — constraints enforced by DIP.parse: correspondence (impl vs Lean model of the validation loop) and
 oracle (impl vs the Lean specification `holds`, evaluated independently on the final values)."""
+import os
 import re
+import shutil
+import tempfile
 import warnings
 
 from harness import core
 from harness.core import Ctx
 from harness.props import c18
 
-RULE = ("DIP texts with 2-5 context nodes and 1-2 constrained nodes (float with unit, unit-less int, str, bool, float arrays) carrying a random "
-        "subset of {options per line, options list, !condition, !format, dimension bounds, declaration only}, final values on / within 0.4e-6 of / "
-        "3e-6 off / far off each boundary, options written in other units of the same dimension (custom $units included), followed by 0-3 "
-        "modifications (also in other units); real DIP.parse accepts or raises; the final value is computed independently by the generator and "
-        "the Lean specification `holds` decides it; on acceptance the returned env.data() is re-checked against that final value. "
-        "non-trivial = >=2 constraint kinds on one node, or an option/condition in another unit, or a modification; distinct = the text")
+RULE = ("DIP texts with 1-3 context nodes and 1-2 constrained nodes (float with unit, int with and without unit, str, bool, float/int arrays "
+        "of declared rank 1-2) carrying a random subset of {options per line, options list, !condition, !format, dimension bounds, declaration "
+        "only}; values on / within 0.4e-6 of / 3e-6 off / far off each boundary, int nodes against non-integer bounds written directly or arising "
+        "from a unit conversion, node reference on either side of the comparison; options and bounds in other units of the same dimension (custom "
+        "$units included); array values of lower, equal and higher rank than declared, given in the definition, a modification or a sliced "
+        "reference; the constrained node is defined in place, or in a group and imported from a local path ({?defs.*}, {?defs.q}) or from a remote "
+        "$source file ({src?defs.*}), and then modified 0-3 times (also in other units); real DIP.parse accepts or raises; the values every node "
+        "ends with are computed independently by the generator and the Lean specification `holds` decides them; on acceptance the returned "
+        "env.data() is re-checked against those values. non-trivial = >=2 constraint kinds on one node, or an option/condition in another unit, "
+        "or a modification, or an import; distinct = the text")
 ASSUMPTIONS = [
-    "options are written in units of the node's dimension (an inconvertible option is refused when it is registered)",
+    "options are written in units of the node's dimension (an inconvertible option is refused when it is registered); options of int nodes "
+    "are integers in the unit they are written in",
     "tolerance verdicts are judged only when robust (10% away from the boundary 1e-8 + 1e-6*|b|)",
     "!condition expressions come from the C18 logical grammar with {?} bound to the node; their value is computed by the C18 model/specification",
     "re.match is a parameter: its verdict on the final value is computed by the harness and handed to model and specification",
-    "int nodes are unit-less (int casting of converted values is C14); array nodes carry only dimension bounds",
+    "int nodes are modified in their own unit (int casting of converted values is C14)",
     "dimension bounds are enforced by cast_value on every assignment, not only on the final one: an array whose first value breaks the bounds "
     "is not modified afterwards in the generated texts (the code rejects it at once; judged here on the value that was rejected)",
+    "an imported node and the node it was copied from are both nodes of an environment (the remote source is parsed and validated on its own): "
+    "both must satisfy the constraints with the value they end with",
 ]
 EXPLANATION = ("theorems: the validation loop accepts a node list iff every node satisfies holds (soundness and completeness, by induction over the "
                "node list, for all values/options/units, with conversion, isclose, condition value and re.match as parameters); "
-               "cast_value's dimension test iff every declared bound holds; options compared after conversion to the node's unit")
+               "cast_value's dimension test iff the value has every declared axis and every declared bound holds; options compared after "
+               "conversion to the node's unit")
 
 LUNITS = ["m", "cm", "km", "mm"]
+KMAP = {"m": 1.0, "cm": 0.01, "km": 1000.0, "mm": 0.001, "[x]": 2.0}
+WORDS = ["ab", "cd", "ab1", "x", "Tina", "abc"]
 
 
 def gen_tables(ctx):
@@ -45,38 +58,65 @@ class Target:
     pass
 
 
-def gen_target(rng, name, kmap, custom):
+def nested(rng, shape, as_int):
+    if not shape:
+        return rng.randint(1, 9) if as_int else float(rng.randint(1, 9))
+    return [nested(rng, shape[1:], as_int) for _ in range(shape[0])]
+
+
+def lit_list(v):
+    if isinstance(v, list):
+        return "[" + ",".join(lit_list(x) for x in v) + "]"
+    return repr(v)
+
+
+def cond_wrap(rng, cmp_):
+    r = rng.random()
+    if r < 0.2:
+        return ["pre", "not", cmp_]
+    if r < 0.4:
+        return ["bin", rng.choice(["and", "or"]), cmp_, ["bin", "gt", ["lit", "{?}"], ["lit", "0"]]]
+    return cmp_
+
+
+def gen_target(rng, name, custom, imported):
+    """A constrained node: definition + property lines, modifications, the value it starts with (`initial`) and ends with (`final`).
+    Constraints are built around the final value, for imported nodes around the initial one (the source must be valid on its own)."""
     t = Target()
     t.name = name
-    t.kind = rng.choice(["float", "float", "float", "int", "str", "bool", "array"])
-    t.lines, t.mods = [], []
-    t.options, t.cond_ast, t.fmt, t.dims, t.shape = [], None, None, [], []
+    t.kind = rng.choice(["float", "float", "int", "int", "str", "bool", "array", "array"])
+    t.lines, t.mods = [], []          # mods: right-hand sides "<value> <unit>"
+    t.options, t.cond_ast, t.fmt, t.dims = [], None, None, []
     t.declared = False
     t.unit = None
+    t.extra_ctx = []
+    t.shape0 = t.shape = []
     units = LUNITS + (["[x]"] if custom else [])
     delta = lambda: rng.choice([0, 0, 4e-7, -4e-7, 3e-6, -3e-6, 0.5, -0.25])
     if t.kind == "float":
         t.unit = rng.choice(units)
         v = float(rng.choice(c18.NUMS))
-        t.declared = rng.random() < 0.2
-        head = "%s float %s" % (name, t.unit) if t.declared else "%s float = %s %s" % (name, fnum(v), t.unit)
-        t.final = None if t.declared else v
-        # modifications decide the final value first (options/conditions are built around it)
-        for _ in range(rng.choice([0, 0, 1, 2, 3]) if not t.declared else rng.choice([0, 1, 1, 2])):
+        t.declared = (not imported) and rng.random() < 0.2
+        t.lines.append("%s float %s" % (name, t.unit) if t.declared else "%s float = %s %s" % (name, fnum(v), t.unit))
+        t.initial = t.final = None if t.declared else v
+        nm = rng.choice([0, 1, 1, 2]) if (t.declared or imported) else rng.choice([0, 0, 1, 2, 3])
+        for _ in range(nm):
             u2 = rng.choice(units)
-            mv = float(rng.choice(c18.NUMS))
-            t.mods.append("%s = %s %s" % (name, fnum(mv), u2))
-            t.final = mv * kmap[u2] / kmap[t.unit]
-        t.lines.append(head)
-        ref = t.final if t.final is not None else 1.0
+            if imported:
+                mv = v * KMAP[t.unit] / KMAP[u2] * (1 + delta())
+            else:
+                mv = float(rng.choice(c18.NUMS))
+            t.mods.append("%s %s" % (fnum(mv), u2))
+            t.final = mv * KMAP[u2] / KMAP[t.unit]
+        ref = t.initial if imported else (t.final if t.final is not None else 1.0)
         if rng.random() < 0.55:
             n = rng.randint(1, 3)
-            hit = rng.random() < 0.7
+            hit = rng.random() < (0.9 if imported else 0.7)
             vals = []
             for i in range(n):
                 u2 = rng.choice(units)
-                d = delta() if (hit and i == 0) else rng.choice([0.5, -0.3, 3e-6, 2.0])
-                vals.append((ref * kmap[t.unit] / kmap[u2] * (1 + d), u2))
+                d = (rng.choice([0, 4e-7, -4e-7]) if imported else delta()) if (hit and i == 0) else rng.choice([0.5, -0.3, 3e-6, 2.0])
+                vals.append((ref * KMAP[t.unit] / KMAP[u2] * (1 + d), u2))
             rng.shuffle(vals)
             if rng.random() < 0.5:
                 for ov, u2 in vals:
@@ -84,52 +124,79 @@ def gen_target(rng, name, kmap, custom):
                     t.options.append(["num", ov, u2])
             else:
                 u2 = vals[0][1]
-                vs = [ov * kmap[u] / kmap[u2] for ov, u in vals]
+                vs = [ov * KMAP[u] / KMAP[u2] for ov, u in vals]
                 t.lines.append("  !options [%s] %s" % (",".join(fnum(x) for x in vs), u2))
                 t.options += [["num", x, u2] for x in vs]
         if rng.random() < 0.55:
             u2 = rng.choice(units + [None])
-            bound = ref * (kmap[t.unit] / kmap[u2] if u2 else 1.0) * (1 + delta())
-            op = rng.choice(["eq", "ne", "le", "ge", "lt", "gt"])
-            cmp_ = ["bin", op, ["lit", "{?}"], ["lit", fnum(bound) + (" " + u2 if u2 else "")]]
-            r = rng.random()
-            if r < 0.2:
-                cmp_ = ["pre", "not", cmp_]
-            elif r < 0.4:
-                cmp_ = ["bin", rng.choice(["and", "or"]), cmp_, ["bin", "gt", ["lit", "{?}"], ["lit", "0"]]]
-            elif r < 0.5:
-                cmp_ = ["bin", "and", ["lit", "!{?%s}" % name], cmp_]
-            t.cond_ast = c18.wf_fix(cmp_, c18.LOG_LVL)
+            d = delta()
+            bound = ref * (KMAP[t.unit] / KMAP[u2] if u2 else 1.0) * (1 + d)
+            if imported:     # satisfied by the initial value, decided by the modifications
+                op = rng.choice(["le", "ge", "eq"]) if abs(d) < 1e-6 else ("lt" if d > 0 else "gt")
+            else:
+                op = rng.choice(["eq", "ne", "le", "ge", "lt", "gt"])
+            a, b = ["lit", "{?}"], ["lit", fnum(bound) + (" " + u2 if u2 else "")]
+            if rng.random() < 0.35:
+                a, b = b, a
+                op = {"lt": "gt", "gt": "lt", "le": "ge", "ge": "le"}.get(op, op)
+            t.cond_ast = c18.wf_fix(cond_wrap(rng, ["bin", op, a, b]) if not imported else ["bin", op, a, b], c18.LOG_LVL)
     elif t.kind == "int":
+        t.unit = rng.choice([None, None, "m", "cm", "km"] + (["[x]"] if custom else []))
+        us = " " + t.unit if t.unit else ""
         v = rng.randint(1, 9)
-        t.lines.append("%s int = %d" % (name, v))
-        t.final = v
+        t.lines.append("%s int = %d%s" % (name, v, us))
+        t.initial = t.final = v
         for _ in range(rng.choice([0, 0, 1, 2])):
-            v = rng.randint(1, 9)
-            t.mods.append("%s = %d" % (name, v))
-            t.final = v
-        if rng.random() < 0.6:
-            opts = sorted({rng.randint(1, 9) for _ in range(rng.randint(1, 4))})
+            v2 = max(1, v + rng.choice([0, 1, -1, 2])) if imported else rng.randint(1, 9)
+            t.mods.append("%d%s" % (v2, us))
+            t.final = v2
+        ref = t.initial if imported else t.final
+        if rng.random() < 0.55:
+            opts = sorted({max(1, ref + rng.choice([0, 0, 1, -1, 2, 3])) for _ in range(rng.randint(1, 4))})
+            # written in a finer unit in which they are integers
+            finer = [u for u in (["m", "cm", "mm"] if t.unit in ("m", "cm", "km", "[x]") else []) if t.unit and KMAP[u] <= KMAP[t.unit]]
+            u2 = rng.choice(finer) if (finer and rng.random() < 0.6) else t.unit
+            f = int(round(KMAP[t.unit] / KMAP[u2])) if u2 else 1
+            u2s = " " + u2 if u2 else ""
             if rng.random() < 0.5:
                 for o in opts:
-                    t.lines.append("  = %d" % o)
+                    t.lines.append("  = %d%s" % (o * f, u2s))
             else:
-                t.lines.append("  !options [%s]" % ",".join(map(str, opts)))
-            t.options = [["num", float(o), None] for o in opts]
-        if rng.random() < 0.5:
-            op = rng.choice(["eq", "ne", "le", "ge", "lt", "gt"])
-            t.cond_ast = ["bin", op, ["lit", "{?}"], ["lit", rng.choice([str(t.final), str(rng.randint(1, 9)), "4.5"])]]
+                t.lines.append("  !options [%s]%s" % (",".join(str(o * f) for o in opts), u2s))
+            t.options = [["num", float(o * f), u2] for o in opts]
+        if rng.random() < 0.7:
+            # bounds between the integers: written directly or arising from a unit conversion
+            off = rng.choice([0, 0.5, -0.5, 0.3, -0.3, 0.7, -0.7, 1, -1, 0.999999, 4e-7])
+            u2 = rng.choice([t.unit, t.unit] + (LUNITS if t.unit else []))
+            bound = (ref + off) * ((KMAP[t.unit] / KMAP[u2]) if (t.unit and u2) else 1.0)
+            btxt = (str(int(round(bound))) if abs(bound - round(bound)) < 1e-12 * max(1, abs(bound)) and rng.random() < 0.7 else fnum(bound))
+            if imported:
+                op = rng.choice(["le", "ge", "eq"]) if off == 0 else ("lt" if off > 0 else "gt")
+            else:
+                op = rng.choice(["eq", "ne", "le", "ge", "lt", "gt"])
+            a, b = ["lit", "{?}"], ["lit", btxt + (" " + u2 if u2 else "")]
+            if rng.random() < 0.4:
+                a, b = b, a
+                op = {"lt": "gt", "gt": "lt", "le": "ge", "ge": "le"}.get(op, op)
+            cmp_ = ["bin", op, a, b]
+            if not imported and rng.random() < 0.3:
+                off2 = rng.choice([0.5, -0.5, 1.5, -1.5])
+                cmp_ = ["bin", rng.choice(["and", "or"]), cmp_,
+                        ["bin", "lt" if off2 > 0 else "gt", ["lit", "{?}"], ["lit", fnum(ref + off2) + us]]]
+            t.cond_ast = c18.wf_fix(cmp_, c18.LOG_LVL)
     elif t.kind == "str":
-        words = ["ab", "cd", "ab1", "x", "Tina", "abc"]
-        v = rng.choice(words)
+        v = rng.choice(WORDS)
         t.lines.append("%s str = '%s'" % (name, v))
-        t.final = v
+        t.initial = t.final = v
         for _ in range(rng.choice([0, 0, 1, 2])):
-            v = rng.choice(words)
-            t.mods.append("%s = '%s'" % (name, v))
-            t.final = v
+            v2 = rng.choice(WORDS)
+            t.mods.append("'%s'" % v2)
+            t.final = v2
+        ref = t.initial if imported else t.final
         if rng.random() < 0.5:
-            opts = rng.sample(words, rng.randint(1, 3))
+            opts = rng.sample(WORDS, rng.randint(1, 3))
+            if imported and ref not in opts:
+                opts.append(ref)
             if rng.random() < 0.5:
                 for o in opts:
                     t.lines.append("  = %s" % o)
@@ -137,54 +204,105 @@ def gen_target(rng, name, kmap, custom):
                 t.lines.append("  !options [%s]" % ",".join('"%s"' % o for o in opts))
             t.options = [["str", o] for o in opts]
         if rng.random() < 0.5:
-            t.fmt = rng.choice(["[a-z]+", "[a-z]+$", "[a-c]+[0-9]?$", "T", ".{2}$", "[A-Z][a-z]*$"])
+            t.fmt = rng.choice(["[a-z]+", "[a-z]+$", "[a-c]+[0-9]?$", "T", ".{2}$", "[A-Z][a-z]*$", "[a-zA-Z0-9]+$"])
             t.lines.append("  !format '%s'" % t.fmt)
         if rng.random() < 0.4:
-            t.cond_ast = ["bin", rng.choice(["eq", "ne"]), ["lit", "{?}"], ["lit", rng.choice(words)]]
+            w = ref if (imported or rng.random() < 0.4) else rng.choice(WORDS)
+            a, b = ["lit", "{?}"], ["lit", w]
+            if rng.random() < 0.3:
+                a, b = b, a
+            t.cond_ast = ["bin", "eq" if imported else rng.choice(["eq", "ne"]), a, b]
     elif t.kind == "bool":
         v = rng.random() < 0.5
         t.lines.append("%s bool = %s" % (name, "true" if v else "false"))
-        t.final = v
+        t.initial = t.final = v
+        if rng.random() < 0.5:
+            v2 = rng.random() < 0.5
+            t.mods.append("true" if v2 else "false")
+            t.final = v2
         if rng.random() < 0.7:
-            t.cond_ast = rng.choice([["lit", "{?}"], ["pre", "not", ["lit", "{?}"]],
-                                     ["bin", "eq", ["lit", "{?}"], ["lit", rng.choice(["true", "false"])]]])
-    else:   # array with dimension bounds
-        n = rng.randint(1, 5)
-        form = rng.choice(["exact", "lo", "hi", "both"])
-        b = n + rng.choice([0, 0, 1, -1, 2])
-        b = max(b, 1)
-        if form == "exact":
-            dim, t.dims = "%d" % b, [[b, b]]
-        elif form == "lo":
-            dim, t.dims = "%d:" % b, [[b, None]]
-        elif form == "hi":
-            dim, t.dims = ":%d" % b, [[None, b]]
-        else:
+            if imported:
+                t.cond_ast = ["lit", "{?}"] if v else ["pre", "not", ["lit", "{?}"]]
+            else:
+                t.cond_ast = rng.choice([["lit", "{?}"], ["pre", "not", ["lit", "{?}"]],
+                                         ["bin", "eq", ["lit", "{?}"], ["lit", rng.choice(["true", "false"])]]])
+    else:   # array with dimension bounds: declared rank 1-2, value rank 0-3
+        as_int = rng.random() < 0.4
+        rank = rng.choice([1, 1, 2])
+        t.unit = None if as_int else "m"
+        us = " m" if t.unit else ""
+
+        def bounds(n):
+            form = rng.choice(["exact", "exact", "lo", "hi", "both"])
+            b = max(n + rng.choice([0, 0, 0, 1, -1, 2]), 1)
+            if form == "exact":
+                return "%d" % b, [b, b]
+            if form == "lo":
+                return "%d:" % b, [b, None]
+            if form == "hi":
+                return ":%d" % b, [None, b]
             lo = max(b - rng.randint(0, 2), 1)
-            dim, t.dims = "%d:%d" % (lo, b), [[lo, b]]
-        vals = [float(rng.randint(1, 9)) for _ in range(n)]
-        t.lines.append("%s float[%s] = [%s] m" % (name, dim, ",".join(fnum(x) for x in vals)))
-        t.shape = [n]
-        t.final = vals
-        t.unit = "m"
-        lo_, hi_ = t.dims[0]
-        within = (lo_ is None or lo_ <= n) and (hi_ is None or n <= hi_)
-        if within and rng.random() < 0.5:   # bounds are enforced on every assignment (see ASSUMPTIONS)
-            n2 = max(1, n + rng.choice([0, 1, -1]))
-            vals = [float(rng.randint(1, 9)) for _ in range(n2)]
-            t.mods.append("%s = [%s] m" % (name, ",".join(fnum(x) for x in vals)))
-            t.shape = [n2]
-            t.final = vals
+            return "%d:%d" % (lo, b), [lo, b]
+
+        def within(shape):
+            if len(shape) < len(t.dims):
+                return False
+            return all((lo is None or lo <= s) and (hi is None or s <= hi) for (lo, hi), s in zip(t.dims, shape))
+        ext = [rng.randint(1, 4) for _ in range(rank)]          # the extents the declaration is written around
+        txt = []
+        for n in ext:
+            a, b = bounds(n)
+            txt.append(a)
+            t.dims.append(b)
+
+        def value_shape():
+            r = rng.random()
+            if r < 0.6:
+                return list(ext)
+            if r < 0.8:
+                return list(ext[:rank - 1])                      # lower rank (a scalar for rank 1)
+            if r < 0.9:
+                return list(ext) + [rng.randint(1, 2)]           # higher rank
+            return [max(1, n + rng.choice([1, -1])) for n in ext]
+        shape = value_shape()
+        how = rng.random()
+        if how < 0.25 and shape and not as_int:
+            # sliced reference to a larger array: some axes indexed (dropped), others ranged
+            src_shape = [n + 1 for n in shape] + ([2] if rng.random() < 0.5 else [])
+            src = nested(rng, src_shape, False)
+            sl, val = [], src
+            parts = []
+            for n in shape:
+                parts.append(":%d" % n)
+            if len(src_shape) > len(shape):
+                parts.append("0")
+            import numpy as np
+            arr = np.array(src)[tuple([slice(0, n) for n in shape] + ([0] if len(src_shape) > len(shape) else []))]
+            t.extra_ctx.append("srcarr float[%s] = %s m" % (",".join(str(n) for n in src_shape), lit_list(src)))
+            t.lines.append("%s float[%s] = {?srcarr}[%s]" % (name, ",".join(txt), ",".join(parts)))
+            val = arr.tolist()
+            t.unit = "m"
+        else:
+            val = nested(rng, shape, as_int)
+            t.lines.append("%s %s[%s] = %s%s" % (name, "int" if as_int else "float", ",".join(txt), lit_list(val), us))
+        t.initial = t.final = val
+        t.shape0 = t.shape = list(shape)
+        if within(shape) and rng.random() < 0.5:   # bounds are enforced on every assignment (see ASSUMPTIONS)
+            shape2 = value_shape()
+            val2 = nested(rng, shape2, as_int)
+            t.mods.append("%s%s" % (lit_list(val2), " m" if t.unit else ""))
+            t.shape = list(shape2)
+            t.final = val2
     return t
 
 
-def final_value_json(t):
-    if t.final is None:
+def value_json(t, v):
+    if v is None:
         return None
     if t.kind in ("float", "int"):
-        return ["num", float(t.final), t.unit]
+        return ["num", float(v), t.unit]
     if t.kind == "str":
-        return ["str", t.final]
+        return ["str", v]
     return ["other"]
 
 
@@ -195,19 +313,29 @@ def correspond(ctx: Ctx):
     rng = ctx.rng
     tabs = c18.capture_tables()
     drv18 = core.Driver("C18")
-    count = 5000 if thorough else 600
+    count = 5000 if thorough else 700
+    tmpdir = tempfile.mkdtemp(prefix="c16_")
+    try:
+        _run(ctx, rng, tabs, drv18, count, tmpdir, DIP, Format)
+    finally:
+        shutil.rmtree(tmpdir, ignore_errors=True)
+
+
+def _run(ctx, rng, tabs, drv18, count, tmpdir, DIP, Format):
     cases = []
     for i in range(count):
-        custom = rng.random() < 0.3
+        mode = rng.choice(["plain", "plain", "plain", "plain", "local-group", "local-node", "remote"])
+        custom = mode != "remote" and rng.random() < 0.3
         ctxt = ["$unit x = 2 m"] if custom else []
         ctxt += ["k float = 3 m", "n int = 4", "w str = 'ab'"][:rng.randint(1, 3)]
-        units = LUNITS + (["[x]"] if custom else [])
-        kmap = {"m": 1.0, "cm": 0.01, "km": 1000.0, "mm": 0.001, "[x]": 2.0}
-        targets = [gen_target(rng, "q", kmap, custom)]
+        targets = [gen_target(rng, "q", custom, mode != "plain")]
         if rng.random() < 0.3:
-            targets.append(gen_target(rng, "r", kmap, custom))
-        cases.append((custom, ctxt, targets))
-    # round 1: conditions through the C18 model/spec with {?} bound to the target
+            targets.append(gen_target(rng, "r", custom, mode != "plain"))
+        if mode != "plain" and any(t.extra_ctx for t in targets):
+            mode = "plain"      # sliced references stay local
+            targets = [gen_target(rng, "q", custom, False)]
+        cases.append((mode, custom, ctxt, targets))
+
     unit_rows_cache = {}
 
     def unit_rows(custom):
@@ -217,42 +345,67 @@ def correspond(ctx: Ctx):
                 env = d.parse()
             unit_rows_cache[custom] = c18.unit_table(env, LUNITS + (["[x]"] if custom else []))
         return unit_rows_cache[custom]
+
+    # the node records of a case: (target, full name, value, shape)
+    def records(mode, t):
+        if mode == "plain":
+            return [(t, t.name, t.final, t.shape)]
+        return [(t, "defs." + t.name, t.initial, t.shape0), (t, "run." + t.name, t.final, t.shape)]
+
+    # round 1: conditions through the C18 model/spec with {?} bound to the node
     reqs, where = [], []
-    for ci, (custom, ctxt, targets) in enumerate(cases):
+    for mode, custom, ctxt, targets in cases:
         for t in targets:
+            t.cond = {}
             if t.cond_ast is None:
                 continue
-            nodes = [["k", "float", 3.0, "m"], ["n", "int", 4, None], ["w", "str", "ab", None]]
-            if t.final is not None:
-                kind = {"float": "float", "int": "int", "str": "str", "bool": "bool"}[t.kind]
-                nodes.append([t.name, kind, t.final, t.unit])
-            reqs.append({"p": "C18", "k": "log", "table": tabs["log"]["table"], "steps": tabs["log"]["steps"],
-                         "units": unit_rows(custom), "nodes": nodes, "autoref": t.name, "ast": t.cond_ast, "blanks": []})
-            where.append(t)
+            for _, full, val, _ in records(mode, t):
+                if val is None:
+                    continue
+                nodes = [["k", "float", 3.0, "m"], ["n", "int", 4, None], ["w", "str", "ab", None]]
+                nodes.append([full, {"float": "float", "int": "int", "str": "str", "bool": "bool"}[t.kind], val, t.unit])
+                reqs.append({"p": "C18", "k": "log", "table": tabs["log"]["table"], "steps": tabs["log"]["steps"],
+                             "units": unit_rows(custom), "nodes": nodes, "autoref": full, "ast": t.cond_ast, "blanks": []})
+                where.append((t, full))
     res = drv18.ask_many(reqs)
-    for t, r in zip(where, res):
+    for (t, full), r in zip(where, res):
         if "ok" not in r:
             ctx.disagreement("cond", {"ast": t.cond_ast}, "C18 driver error %s" % r)
-            t.cond = None
-            t.cond_text = "true"
-            t.cond_model = t.cond_spec = True
+            t.cond[full] = ("true", True, True)
             continue
+        t.cond[full] = (r["ok"]["text"], r["ok"]["model"], r["ok"]["spec"])
         t.cond_text = r["ok"]["text"]
-        t.cond_model = r["ok"]["model"]
-        t.cond_spec = r["ok"]["spec"]
+    for mode, custom, ctxt, targets in cases:
+        for t in targets:
+            if t.cond_ast is not None and not hasattr(t, "cond_text"):
+                t.cond_text = None     # no value anywhere: render through a dummy request is not needed, drop the condition
+                t.cond_ast = None
 
     # real parse + round 2
     reqs, meta = [], []
-    for custom, ctxt, targets in cases:
-        lines = list(ctxt)
+    for ci, (mode, custom, ctxt, targets) in enumerate(cases):
+        body = []
         for t in targets:
-            for ln in t.lines:
-                lines.append(ln)
+            body += t.lines
             if t.cond_ast is not None:
-                lines.append("  !condition (\"%s\")" % t.cond_text)
-        for t in targets:
-            lines += t.mods
+                body.append("  !condition (\"%s\")" % t.cond_text)
+        extra = [ln for t in targets for ln in t.extra_ctx]
+        if mode == "plain":
+            lines = ctxt + extra + body + ["%s = %s" % (t.name, m) for t in targets for m in t.mods]
+        else:
+            group = ["defs"] + ["  " + ln for ln in body]
+            mods = ["run.%s = %s" % (t.name, m) for t in targets for m in t.mods]
+            if mode == "remote":
+                path = os.path.join(tmpdir, "defs_%d.dip" % ci)
+                with open(path, "w") as f:
+                    f.write("\n".join(group) + "\n")
+                lines = ["$source src = %s" % path] + ctxt + ["run", "  {src?defs.*}"] + mods
+            elif mode == "local-group":
+                lines = ctxt + group + ["run", "  {?defs.*}"] + mods
+            else:
+                lines = ctxt + group + ["run"] + ["  {?defs.%s}" % t.name for t in targets] + mods
         text = "\n".join(lines)
+        shown = text if mode != "remote" else text + "\n--- file %s ---\n%s" % (path, "\n".join(group))
         try:
             with warnings.catch_warnings():
                 warnings.simplefilter("ignore")
@@ -266,23 +419,23 @@ def correspond(ctx: Ctx):
         judged = True
         nodes = []
         for t in targets:
-            nd = {"declared": t.declared, "value": final_value_json(t), "unit": t.unit,
-                  "selectable": t.kind in ("float", "int", "str"), "options": t.options,
-                  "isStr": t.kind == "str", "dims": t.dims, "shape": t.shape}
-            if t.cond_ast is not None and t.final is not None:
-                if t.cond_model == "outside":
-                    judged = False
-                nd["cond"] = t.cond_model if isinstance(t.cond_model, bool) else "err"
-                nd["cond_spec"] = t.cond_spec if isinstance(t.cond_spec, bool) else ("unknown" if t.cond_spec == "unknown" else False)
-                if t.cond_spec == "err":
-                    nd["cond_spec"] = False
-            if t.fmt is not None and t.final is not None:
-                nd["fmt"] = re.match(t.fmt, t.final) is not None
-            nodes.append(nd)
+            for _, full, val, shape in records(mode, t):
+                nd = {"declared": t.declared, "value": value_json(t, val), "unit": t.unit,
+                      "selectable": t.kind in ("float", "int", "str"), "options": t.options,
+                      "isStr": t.kind == "str", "dims": t.dims, "shape": shape}
+                if t.cond_ast is not None and val is not None:
+                    _, cm, cs = t.cond[full]
+                    if cm == "outside":
+                        judged = False
+                    nd["cond"] = cm if isinstance(cm, bool) else "err"
+                    nd["cond_spec"] = cs if isinstance(cs, bool) else ("unknown" if cs == "unknown" else False)
+                if t.fmt is not None and val is not None:
+                    nd["fmt"] = re.match(t.fmt, val) is not None
+                nodes.append(nd)
         reqs.append({"p": "C16", "k": "env", "units": unit_rows(custom), "nodes": nodes})
-        meta.append((text, targets, imp, data, judged))
+        meta.append((mode, shown, targets, imp, data, judged))
     res = ctx.driver.ask_many(reqs)
-    for (text, targets, imp, data, judged), r in zip(meta, res):
+    for (mode, text, targets, imp, data, judged), r in zip(meta, res):
         kinds = set()
         for t in targets:
             if t.options:
@@ -293,16 +446,18 @@ def correspond(ctx: Ctx):
                 kinds.add("format")
             if t.dims:
                 kinds.add("dims")
+                ctx.count("array.rank_%s" % ("lower" if len(t.shape) < len(t.dims) else "higher" if len(t.shape) > len(t.dims) else "equal"))
             if t.declared:
                 kinds.add("declared")
             if t.mods:
                 kinds.add("mods")
-            ctx.count("node." + t.kind)
+            ctx.count("node." + t.kind + ("+unit" if t.kind == "int" and t.unit else ""))
         for k in kinds:
             ctx.count("constraint." + k)
+        ctx.count("mode." + mode)
         ctx.count("impl.accepted" if imp else "impl.rejected")
-        ctx.case([text], len(kinds) >= 2 or " cm" in text or "[x]" in text, {"text": text, "accepted": imp})
-        replay = {"stream": "parse", "text": text, "impl_accepts": imp, "impl_data": str(data)[:300]}
+        ctx.case([text], len(kinds) >= 2 or " cm" in text or "[x]" in text or mode != "plain", {"text": text, "accepted": imp})
+        replay = {"stream": "parse", "mode": mode, "text": text, "impl_accepts": imp, "impl_data": str(data)[:300]}
         if "ok" not in r:
             ctx.disagreement("parse", replay, "driver error %s" % r)
             continue
@@ -313,9 +468,9 @@ def correspond(ctx: Ctx):
             continue
         if imp != spec:
             kind = "+".join(sorted(kinds - {"mods"})) or "plain"
-            sig = ("accepts-violating:" if imp else "rejects-satisfying:") + kind
+            sig = ("accepts-violating:" if imp else "rejects-satisfying:") + ("import:" if mode != "plain" else "") + kind
             ctx.violation(sig, "DIP.parse %s a text whose final values %s the attached constraints: %s" %
-                          ("accepts" if imp else "rejects", "violate" if imp else "satisfy", text.replace("\n", " / ")[:300]), replay)
+                          ("accepts" if imp else "rejects", "violate" if imp else "satisfy", text.replace("\n", " / ")[:400]), replay)
             continue
         if imp != model:
             ctx.disagreement("parse", replay, "impl accepts=%s model=%s" % (imp, model))
@@ -323,18 +478,19 @@ def correspond(ctx: Ctx):
         if imp:
             # soundness oracle on the returned data: the values judged are the values returned
             for t in targets:
-                got = data.get(t.name)
-                if t.kind == "float":
-                    ok = isinstance(got, tuple) and c18.close(got[0], t.final, None) and got[1] == t.unit
-                elif t.kind == "int":
-                    ok = got == t.final
-                elif t.kind == "str":
-                    ok = got == t.final
-                elif t.kind == "bool":
-                    ok = got == t.final
-                else:
-                    ok = isinstance(got, tuple) and list(got[0]) == t.final
-                if not ok:
-                    ctx.violation("returned-value:" + t.kind, "accepted environment returns %r for %s, the constraints were judged on the final value %r: %s" %
-                                  (got, t.name, t.final, text.replace("\n", " / ")[:300]), replay)
-                    break
+                for _, full, val, _ in ([(t, t.name, t.final, None)] if mode == "plain" else
+                                        [(t, "run." + t.name, t.final, None)] + ([(t, "defs." + t.name, t.initial, None)] if mode != "remote" else [])):
+                    got = data.get(full)
+                    if t.kind == "float":
+                        ok = isinstance(got, tuple) and c18.close(got[0], val, None) and got[1] == t.unit
+                    elif t.kind == "int":
+                        ok = (got == (val, t.unit)) if t.unit else got == val
+                    elif t.kind in ("str", "bool"):
+                        ok = got == val
+                    else:
+                        g = got[0] if isinstance(got, tuple) else got
+                        ok = g == val
+                    if not ok:
+                        ctx.violation("returned-value:" + t.kind, "accepted environment returns %r for %s, the constraints were judged on the final value %r: %s" %
+                                      (got, full, val, text.replace("\n", " / ")[:300]), replay)
+                        break
